@@ -1533,6 +1533,49 @@ def r21_pairing(idx, r):
     pairing_rule(idx, r, ["armi.nuclearDataIO.cccc"], 100)
 
 
+def r23_blocked_axis_and_mode_tests(idx, r):
+    """(a) a sub-blocked record loop asks getBlockBandwidth for the bounds of the axis it then slices with them: the extent handed over is the
+    extent that axis was allocated with (NINTJ for `[:, jL:jU + 1, k]`), not a sibling one - on a non-square plane the rows beyond the smaller
+    extent are never written nor read.  (b) whether a stream is reading is asked as `"r" in self._fileMode` (modes are r, rb, w, wb): an
+    equality test against one spelling makes the other encoding behave like a writer."""
+    n = 0
+    for mod, qual in BLOCKED_RECORDS:
+        f = next(x for x in idx.module(CCCC.rsplit(".", 1)[0] + "." + mod).all_funcs() if x.qualname == qual)
+        env = single_assign_env(f.node)
+        alloc = {}
+        for s_ in iter_stores(f.node):
+            if s_.kind == "assign" and s_.chain and isinstance(s_.value, ast.Call) and (dotted(s_.value.func) or "").split(".")[-1] in ("zeros", "empty", "ones") and s_.value.args and isinstance(s_.value.args[0], ast.Tuple):
+                alloc[s_.chain] = [norm(propagate(x, env)) for x in s_.value.args[0].elts]
+        for c in iter_calls(f.node):
+            if not (dotted(c.func) or "").endswith("getBlockBandwidth") or len(c.args) != 3:
+                continue
+            asg = next((x for x in walk_local(f.node) if isinstance(x, ast.Assign) and x.value is c and isinstance(x.targets[0], ast.Tuple)), None)
+            if asg is None:
+                continue
+            lo = norm(asg.targets[0].elts[0])
+            for sub in [x for x in walk_local(f.node) if isinstance(x, ast.Subscript) and isinstance(x.slice, ast.Tuple) and norm(x.value) in alloc]:
+                for axis, ix in enumerate(sub.slice.elts):
+                    if isinstance(ix, ast.Slice) and ix.lower is not None and norm(ix.lower) == lo and len(alloc[norm(sub.value)]) == len(sub.slice.elts):
+                        n += 1
+                        r.require(norm(propagate(c.args[1], env)) == alloc[norm(sub.value)][axis], f"{mod}:{qual}:bounds-of-the-sliced-axis", f, node=c,
+                                  msg=f"`{norm(c)}` splits an extent of {norm(propagate(c.args[1], env))} but the bounds slice axis {axis} of {norm(sub.value)}, allocated with {alloc[norm(sub.value)][axis]}")
+                        break
+                else:
+                    continue
+                break
+    if n < 2:
+        raise AnchorMissing("sub-blocked record loops that slice an array allocated in the same function")
+    k = 0
+    for m in _cccc_modules(idx):
+        for x in ast.walk(m.tree):
+            if isinstance(x, ast.Compare) and any("_fileMode" in norm(e) for e in [x.left] + x.comparators) and isinstance(x.ops[0], (ast.Eq, ast.NotEq, ast.In, ast.NotIn)):
+                k += 1
+                r.require(isinstance(x.ops[0], (ast.In, ast.NotIn)), f"{m.relpath.rsplit('/', 1)[-1]}:{norm(x)[:40]}:mode-asked-by-membership", (m.relpath, x.lineno, ""),
+                          msg=f"`{norm(x)}` compares the file mode with one spelling: the other encoding (ascii vs binary) takes the wrong branch - e.g. an ASCII read attaches no nuclide to the library")
+    if k < 3:
+        raise AnchorMissing("file-mode tests in the cccc package")
+
+
 def run(idx, chk):
     chk.explanation = (
         "C09: static reader/writer agreement for CCCC records: struct formats, byte counters and ASCII field widths of "
@@ -1595,3 +1638,5 @@ def run(idx, chk):
                  necessary="record helpers receive (value, type, shape) in that order")
     chk.run_rule("R09.22", "a plane-by-plane record loop covers the whole axis the function allocates", lambda r: r22_record_loops_cover_the_allocated_axis(idx, r), floor=2,
                  necessary="every value of the data model is written and read back")
+    chk.run_rule("R09.23", "block bounds are computed for the axis they slice; the reading/writing mode is asked by membership", lambda r: r23_blocked_axis_and_mode_tests(idx, r), floor=5,
+                 necessary="every value is written and read back in both encodings")
